@@ -342,4 +342,23 @@ def emittedWith (split : Bool) (c : Costs) (s : Seqs) (traps : List Trap) (k min
 def emitted (c : Costs) (s : Seqs) (traps : List Trap) (k minLen num den : Int) : List KHit :=
   emittedWith false c s traps k minLen num den
 
+/-- `starts.Less` as the `≤` of a merge sort: by `Abpos`, ties by `Bbpos` (the seventh repair; before
+    it `Abpos` alone, which let a hit with the same `Abpos` and another `Bbpos` sort between two
+    hits with the same start) -/
+def startLe (a b : Hit) : Bool := if a.abpos ≠ b.abpos then decide (a.abpos < b.abpos) else decide (a.bbpos ≤ b.bbpos)
+
+/-- `ends.Less`: by `Aepos`, ties by `Bepos` -/
+def endLe (a b : Hit) : Bool := if a.aepos ≠ b.aepos then decide (a.aepos < b.aepos) else decide (a.bepos ≤ b.bepos)
+
+/-- the second half of `AlignTraps`: the suppression applied to the hits collected from the channel -/
+def suppressed (em : List KHit) : List Hit :=
+  Biogo.PalsOracle.suppress (fun l => l.mergeSort startLe) (fun l => l.mergeSort endLe) (em.map (·.h))
+
+/-- **`AlignTraps`**: the kernel on every trapezoid that is not yet covered and at least `k` high,
+    then the removal of hits that begin or end at the same point as a higher scoring hit
+    (`Biogo.PalsOracle.suppress`, with the two sorts as stable merge sorts — `sort.Sort` may order
+    equal keys differently, which `alignTraps_sound` does not depend on) -/
+def alignTraps (c : Costs) (s : Seqs) (traps : List Trap) (k minLen num den : Int) : List Hit :=
+  suppressed (emitted c s traps k minLen num den)
+
 end Biogo.PalsKernel
